@@ -39,11 +39,13 @@ def configs(tier, seed):
         out.append(dict(name="screen r=1 a=2 +1 fixed-doses", h="screen", rows=1, arity=2, extra=1, doses="fixed", plates="one"))
         out.append(dict(name="badmap n=2", h="badmap", n=2))
         out.append(dict(name="300 distinct names", h="many", N=300))
+        out.append(dict(name="combine / concat, concrete names n=2", h="combine", n=2, pool=True))
         out.append(dict(name="treat n=1 m=2 names of unequal length", h="treat", n=1, m=2, pool=True))
         out.append(dict(name="one_d n=2 m=2 names of unequal length", h="one_d", n=2, m=2, pool=True))
     else:
         out.append(dict(name="300 distinct names", h="many", N=300))
         out.append(dict(name="1000 distinct names", h="many", N=1000))
+        out.append(dict(name="combine / concat, concrete names n=3", h="combine", n=3, pool=True))
         out.append(dict(name="treat n=2 m=2 names of unequal length", h="treat", n=2, m=2, pool=True))
         out.append(dict(name="one_d n=2 m=3 names of unequal length", h="one_d", n=2, m=3, pool=True))
         out.append(dict(name="one_d n=3 m=2 names of unequal length", h="one_d", n=3, m=2, pool=True))
@@ -257,7 +259,39 @@ def h_screen(ctx, cfg):
     for v in sids:
         ctx.prove(v < ns, "sample id strictly below ExperimentSpace.n_unique_samples")
     ctx.prove(ctx.And(s.treatment_space_size == len(mn), s.sample_space_size == len(smn)), "space sizes are the mapping lengths")
+    if not X and cfg.get("combine", True):
+        # screens put together from screens (Screen.combine / Screen.concat) are screens like any other: same control
+        # name, sentinel exactly for control name or dose <= 0, ids decoding through the combined screen's own mapping
+        for how, comb in (("combine", s.combine(s)), ("concat", data.Screen.concat([s, s]))):
+            ctx.prove(comb.control_treatment_name == ctrl, "%s keeps the control treatment name" % how, key="control name lost by combine / concat")
+            cids = comb.treatment_ids.tolist()
+            cn, cd, ci = [x.tolist() for x in comb.treatment_mapping]
+            ctx.prove(len(cids) == 2 * R, "%s of a screen with itself has twice the rows" % how)
+            if len(cids) == 2 * R:
+                _check_treatment_encoding(ctx, flat_names + flat_names, flat_doses + flat_doses, ctrl,
+                                          [cids[r][c] for r in range(2 * R) for c in range(A)], cn, cd, ci, "%s: " % how)
     return len(mn)
+
+
+def h_combine(ctx, cfg):
+    """Screen.combine / Screen.concat with concrete names (a non-default control name among them, also at a positive dose)"""
+    np = ctx.np
+    data = ctx.mod("batchie.data")
+    n = cfg["n"]
+    names = _names(ctx, dict(pool=True), n)
+    doses = [ctx.real("ds%d" % i) for i in range(n)]
+    ctrl = POOL[int(ctx.int("ctrlk", 3, 4))]
+    s = data.Screen(treatment_names=np.array([[x] for x in names], dtype=str), treatment_doses=np.array([[d] for d in doses], dtype=float),
+                    sample_names=np.array(["s%d" % (i % 2) for i in range(n)], dtype=str), plate_names=np.array(["p"] * n, dtype=str),
+                    control_treatment_name=ctrl)
+    for how, comb in (("combine", s.combine(s)), ("concat", data.Screen.concat([s, s]))):
+        ctx.prove(comb.control_treatment_name == ctrl, "%s keeps the control treatment name" % how, key="control name lost by combine / concat")
+        cids = [r[0] for r in comb.treatment_ids.tolist()]
+        cn, cd, ci = [x.tolist() for x in comb.treatment_mapping]
+        ctx.prove(len(cids) == 2 * n, "%s of a screen with itself has twice the rows" % how)
+        if len(cids) == 2 * n:
+            _check_treatment_encoding(ctx, names + names, doses + doses, ctrl, cids, cn, cd, ci, "%s: " % how)
+    return n
 
 
 def h_many(ctx, cfg):
@@ -365,4 +399,4 @@ def h_badmap(ctx, cfg):
 
 
 def run(ctx, cfg):
-    return {"treat": h_treat, "one_d": h_one_d, "screen": h_screen, "badmap": h_badmap, "many": h_many}[cfg["h"]](ctx, cfg)
+    return {"treat": h_treat, "one_d": h_one_d, "screen": h_screen, "badmap": h_badmap, "many": h_many, "combine": h_combine}[cfg["h"]](ctx, cfg)
